@@ -339,6 +339,7 @@ class FUdpSock:
         self.peer = addr[1]
         self.port = next(K.udp.eph)
         K.udp.ports[self.port] = self
+        K.cur().last_udp_port = self.port
 
     def _peer_alive(self, port):
         s = K.udp.ports.get(port)
@@ -768,7 +769,10 @@ def install():
             v = forced(K)
             if v is not None:
                 return u.UUID(int=v, version=4)
-        return u.UUID(int=(K.ch.draw(1 << 30) << 90) | next(K.uuid_ctr), version=4)
+        # distinct within a run even when every draw is 0 (a shrunk trace): the counter sits in the leading hex digits, which is
+        # what callers truncate to (reader ids are str(uuid4())[:8]); collisions are injected explicitly through cfg["uuid_force"]
+        n = next(K.uuid_ctr)
+        return u.UUID(int=(((K.ch.draw(1 << 16) << 16) | (n & 0xFFFF)) << 96) | n, version=4)
     uuid.uuid4 = disp(uuid.uuid4, fake_uuid4)
 
     def fake_atexit(f, *a, **kw):
